@@ -329,6 +329,7 @@ def security_headers():
 def wrappers(ctx):
     cs = [users_only()] + [developers_only(r) for r in DEV_REPRS] + [developers_or_auth_only(r) for r in DEV_REPRS] + [billing_project_users_only(), security_headers()]
     for c in cs:
+        c.raises.setdefault('*', True)
         e = pyvc.Engine(ctx, c)
         e.replayer = _native('wrappers')
         e.run()
@@ -555,6 +556,7 @@ def user_can_access():
 
 def queries(ctx):
     c = user_can_access()
+    c.raises.setdefault('*', True)
     e = pyvc.Engine(ctx, c)
     e.replayer = _native('membership')
     e.run()
@@ -699,6 +701,7 @@ def helper_gate_contracts(ctx, tree):
         canaries=[('no-caller-gets-past-the-gate', 'not OWNER')],
     )
     for c, f in ((cj, fn), (cg, fn2)):
+        c.raises.setdefault('*', True)
         e = pyvc.Engine(ctx, c)
         e.replayer = _native('owner')
         e.run()
@@ -821,8 +824,9 @@ def _update_ids(eng):
 HELPERS = {
     '_create_jobs': _helper_model('_create_jobs', 2, 0),
     '_create_job_groups': _helper_model('_create_job_groups', 1, 3),
-    # proved for _create_batch_update.update: a normal return means the owner row was found OR an update token was replayed
-    '_create_batch_update': _helper_model('_create_batch_update', 0, 4, result=_update_ids, grants='OWNER or TOKEN'),
+    # the handlers are checked against the helper's CONTRACT (it returns only for the owner of the batch); the helper's own
+    # obligation _create_batch_update.update/post/returns-only-for-the-owner-of-the-batch decides whether its body meets it
+    '_create_batch_update': _helper_model('_create_batch_update', 0, 4, result=_update_ids, grants='OWNER'),
     '_commit_update': _commit_model(1, 3),
 }
 
@@ -1001,6 +1005,7 @@ def create_batch_contracts(ctx, tree):
         canaries=[('no-batch-is-ever-created', 'n_inserts == 0')],
     )
     for c in (outer, inner_c):
+        c.raises.setdefault('*', True)
         e = pyvc.Engine(ctx, c)
         e.replayer = _native('owner')
         e.run()
@@ -1026,6 +1031,7 @@ def owner_filters(ctx):
     helper_gate_contracts(ctx, tree)
     create_batch_contracts(ctx, tree)
     c = batch_update_contract()
+    c.raises.setdefault('*', True)
     e = pyvc.Engine(ctx, c)
     e.replayer = _native('update')
     e.run()
@@ -1033,6 +1039,7 @@ def owner_filters(ctx):
     _emit_canaries(ctx, e)
     broken = []
     for c in handler_contracts(tree) + new_batch_handler_contracts():
+        c.raises.setdefault('*', True)
         e = pyvc.Engine(ctx, c)
         e.replayer = _native({'update_batch_fast': 'token-replay', 'create_update': 'token-replay-ids'}.get(c.qualname, 'owner'))
         e.run()
